@@ -408,6 +408,15 @@ impl LexiconReader {
             x => (x, self.entries.len()),
         };
         for e in self.entries.iter() {
+            if e.should_index() && e.right_id < 0 {
+                // only entries which are not in the index (negative left_id) may have no connection ids
+                return ctx.err(BuildFailure::InvalidFieldSize {
+                    actual: e.right_id as u16 as _,
+                    expected: self.max_left as _,
+                    field: "right_id",
+                });
+            }
+
             // left id of a word is the second index of the connection matrix, right id is the first
             if e.left_id >= self.max_right {
                 return ctx.err(BuildFailure::InvalidFieldSize {
